@@ -155,8 +155,19 @@ def scn_lines(scn, magic, real_xd):
     return head + ";".join(hf), head + ";".join(mf)
 
 
+def spec_tok(h):
+    """the specification's description of one target.  A command that timed out and, terminated by pdsh, still
+    RETURNED a code (it traps TERM; only the exec channel reports that code) is described by both facts: the
+    time-out and the return code -- "the largest return code of any remote command, raised to 254 if any host ...
+    timed out" takes the maximum over both (differs from the plain time-out only for code 255)."""
+    t = tok(h["outcome"])
+    if h["outcome"][0] == "to" and h["chan"] == "exec" and tmo_of(h)["end"] != "d":
+        t += ",e%d" % tmo_of(h)["end"][1]
+    return t
+
+
 def spec_line(scn, exit_status):
-    outs = ",".join(tok(h["outcome"]) for h in scn["hosts"]) or "-"
+    outs = ",".join(spec_tok(h) for h in scn["hosts"]) or "-"
     return "adm %d %d 0 %s %d" % (scn["S"], scn["k"], outs, exit_status)
 
 
@@ -811,7 +822,7 @@ def report_bad(ctx, bad, bits, where):
             # the model does not reproduce this exit status, so none of the modelled defects explains it
             fixset = "unexplained"
         flags = ("S" if s["S"] else "") + ("k" if s["k"] else "") or "plain"
-        outs = ",".join(tok(hh["outcome"]) + ("/" + hh["chan"] if hh["chan"] != "raw" else "") for hh in s["hosts"])
+        outs = ",".join(spec_tok(hh).replace(",", "+") + ("/" + hh["chan"] if hh["chan"] != "raw" else "") for hh in s["hosts"])
         ctx.offender("%s:needs-fix:%s" % (flags, fixset),
                      "%s with flags -%s and outcomes [%s] ends with `%s`, which the specification does not admit "
                      "(smallest set of proposed repairs that makes it admissible: %s)" % (where, flags, outs, ans, fixset),
